@@ -30,7 +30,13 @@ CAP = {"quick": 40, "thorough": 800}
 CONFIGURABLE = ["APP_ROOT", "APP_LOCAL_1", "RAD_LOCAL_1"]
 POOL = ["nordicsemi.com", "acme.org", "", "a", "A", "a ", "Ünïcödé", "Zażółć gęślą jaźń", "中文", "日本語クラス", "😀🚀",
         "x" * 1000, "name with spaces", "tab\there", "nRF54H20_sample_app", "nRF54H20_sample_root", "NRF54H20_SAMPLE_APP",
-        "nordicsemi.com.", "ｎｏｒｄｉｃ", "é", "é", "#hash", "a=b", "$(x)", "0", "null"]
+        "nordicsemi.com.", "ｎｏｒｄｉｃ", "é", "é", "#hash", "a=b", "$(x)", "0", "null",
+        # names that look like something else: UUID text forms (a reader could take them for ready-made UUIDs), numbers,
+        # booleans, hex
+        "6ba7b810-9dad-11d1-80b4-00c04fd430c8", "0123456789abcdef0123456789abcdef",
+        "{01234567-89AB-CDEF-0123-456789ABCDEF}", "urn:uuid:6ba7b811-9dad-11d1-80b4-00c04fd430c8",
+        "00000000-0000-0000-0000-000000000000", "7617daa5-71fd-5a85-8f94-e28d735ce9f4", "DEADBEEF" * 4,
+        "123", "1e5", "0x1F", "true", "None", "-1", "3.14"]
 
 
 def shards(tier):
